@@ -60,26 +60,28 @@ P("C03", [f"{RQ}:_comes_before", f"{RQ}:_contains", f"{RQ}:arg_prune_partition",
   unverified=["api.matrix / Cooler.matrix (engine choice, output conversion)",
               "BaseRangeQuery2D.get/to_array/to_sparse_matrix/to_frame", "RangeSelector2D.__getitem__/fetch"])
 
-P("C04", [f"{RQ}:_region_to_extent", f"{UT}:parse_region"], "bounded/C04.py",
+P("C04", [f"{RQ}:_region_to_extent", f"{UT}:parse_region", f"{UT}:get_binsize"], "bounded/C04.py",
   "Proof of the extent arithmetic for all bin tables, chromosomes and ranges (fixed path relative to the C20 "
   "'fixed' predicate, variable path over the searchsorted contract) and of parse_region's defaults/bounds/refusals.",
   note="FDIV64 (float floor/ceil of integer quotients); parse_region_string assumed in the prover (C19 bounded).",
   unverified=["Cooler.extent/offset and the _fetch closures", "GenomeSegmentation.fetch / bedslice"])
 
-P("C05", [], "bounded/C05.py",
-  "Bounded stand-in only so far (records on every bin edge through API, load, cload pairs, cload tabix); the "
-  "lifted proof of _sanitize_records is not built yet.", level="other",
-  unverified=["_sanitize_records", "_sanitize_pixels", "aggregate_records", "TabixAggregator.aggregate"])
+P("C05", [f"{ING}:_sanitize_pixels", f"{UT}:get_binsize"], "bounded/C05.py",
+  "Proof core: the pre-binned-record sanitizer is verified per record for all chunks: one-based shift by exactly one, "
+  "mirroring of lower-triangle records together with their sided fields, drop keeps exactly the upper records in order, "
+  "raise refuses exactly when a lower-triangle record exists. The genomic-record sanitizer (_sanitize_records: bin "
+  "assignment) and the loaders are covered by the bounded tier only (records on every bin edge through API, load, cload pairs, cload tabix).", level="other",
+  unverified=["_sanitize_records (bin assignment)", "aggregate_records", "TabixAggregator.aggregate"])
 
 P("C06", [f"{RED}:merge_breakpoints"], "bounded/C06.py",
   "Proof core: the merge-epoch partition (merge_breakpoints: bisect loop with invariant and variant, for k = 1,2,3 input indexes and every buffer size) ends exactly where every input is exhausted and is strictly increasing. Bounded stand-in for the rest (all small record multisets x partitions x orders x mergebuf x max_merge).",
   level="other", unverified=["create_from_unordered merge plan", "merge_breakpoints", "CoolerMerger.__iter__"])
 
-P("C07", [f"{RED}:merge_breakpoints"], "bounded/C07.py",
+P("C07", [f"{RED}:merge_breakpoints", f"{UT}:get_binsize", f"{ING}:_validate_pixels"], "bounded/C07.py",
   "Proof core: merge_breakpoints (shared with C06). Bounded stand-in for the rest (all small input families x mergebuf x orders x nestings x dtype limits).",
   level="other", unverified=["merge_breakpoints", "CoolerMerger.__init__/__iter__", "merge_coolers", "write_pixels"])
 
-P("C08", [f"{RED}:_greedy_prune_partition"], "bounded/C08.py",
+P("C08", [f"{RED}:_greedy_prune_partition", f"{UT}:get_binsize"], "bounded/C08.py",
   "Proof core: the pruned pixel partition consists of values of the coarse-row edge list only (no coarse row is split), strictly ordered, from 0 to nnz, for every edge list and chunk size. Bounded stand-in for the rest (all small coolers x factors x chunk sizes x workers against a block-aggregate model).",
   level="other", unverified=["CoolerCoarsener.__init__/_aggregate/__iter__", "_greedy_prune_partition", "coarsen_bins"])
 
@@ -112,8 +114,8 @@ P("C15", [f"{UT}:parse_cooler_uri"], "bounded/C15.py",
   "ghost model of two HDF5 files (all operation sequences up to a length bound).", level="other",
   unverified=["fileops._copy/cp/mv/ln", "is_cooler/list_coolers", "create() mode/frame"])
 
-P("C16", [], "bounded/C16.py", "Bounded stand-in only so far (all dump option subsets, all column permutations).",
-  level="other", unverified=["cli.dump", "cli.load", "cli.cload.pairs", "parse_field_param", "zoomify spec loop"])
+P("C16", [f"{ING}:_sanitize_pixels", f"{ING}:_validate_pixels", f"{RQ}:FillLowerRangeQuery2D.__init__", f"{RQ}:DirectRangeQuery2D.__init__"], "bounded/C16.py", "Proof core: the pieces of the dump/load paths that are under contract - the query engines dump iterates (exactly-once lemma, shared with C03) and the pre-binned-record sanitizer and validator cooler load runs every chunk through (shared with C05/C13). The option semantics of dump, the loaders' column mapping and the zoomify spec expansion are covered by the bounded tier (all 128 dump option subsets, all column permutations).",
+  level="other", unverified=["cli.dump (option semantics)", "cli.load / cli.cload.pairs (column mapping)", "parse_field_param", "zoomify spec loop"])
 
 P("C17", [], "bounded/C17.py", "Bounded stand-in only so far.", level="other",
   unverified=["create_scool", "create(append_scool=True)", "list_scool_cells"])
